@@ -75,7 +75,7 @@ fn repr_long_strings_are_not_inlined() {
 
 #[cfg(kani)]
 #[kani::proof]
-#[kani::unwind(8)]
+#[kani::unwind(17)] // the contents are <= 6 bytes, but an implementation may walk the whole 15-byte inline storage
 fn repr_eq_iff_same_string() {
   // two inline strings of up to 6 bytes: equal handles <=> equal strings; Ord is the string order
   let (b1, l1) = any_bytes::<6>();
